@@ -56,6 +56,16 @@ func CreatePropellerUnits(
 	return units, nil
 }
 
+// firstReceivedUnit returns the first non-nil unit of an index-addressed slice of units, or nil.
+func firstReceivedUnit(units []*Unit) *Unit {
+	for _, unit := range units {
+		if unit != nil {
+			return unit
+		}
+	}
+	return nil
+}
+
 // ConstructMessageFromUnits receives Propeller units, recovers any missing data and returns
 // the fully verified message, together with the corresponding  shard data and merkle proof.
 func ConstructMessageFromUnits(
@@ -65,6 +75,12 @@ func ConstructMessageFromUnits(
 	parity int,
 ) ([]byte, ShardData, merkle.Proof, error) {
 	if len(units) == 0 {
+		return nil, nil, merkle.Proof{}, errors.New("no propeller units to decode")
+	}
+
+	// Missing shards are nil entries: any received unit can provide the message root.
+	firstUnit := firstReceivedUnit(units)
+	if firstUnit == nil {
 		return nil, nil, merkle.Proof{}, errors.New("no propeller units to decode")
 	}
 
@@ -96,7 +112,7 @@ func ConstructMessageFromUnits(
 
 	merkleRoot, merkleTree := merkle.New(shards)
 
-	messageRoot := units[0].MessageRoot
+	messageRoot := firstUnit.MessageRoot
 	expectedRoot := MessageRoot(merkleRoot)
 	if messageRoot != expectedRoot {
 		// todo(rdr): probably need to write string methods for the MessageRoot type
